@@ -186,3 +186,150 @@ def k2_exit_status(res, tier):
             e.check(outcome == 'ok' and isinstance(s, EnumV) and s.variant_name() == 'OkReturn', 'a native that returns a value returns normally')
         return {'native_result': k, 'outcome': outcome}
     _finish(res, e, e.explore(path), 'C18.K2:call_native:')
+
+
+F22_REPLAY = dict(kind='lay', source='[1, 2].iter().each(|x| exit(3));\nprint("not reached");\n', bad_exit=[101, 134, -6],
+                  note='exit(n) inside a callback run by a native must end the program with status n')
+
+
+@obligation('C18.K2.exit_through_callbacks', 'C18', programs=('vm',), also=('C16',))
+def k2_exit_callbacks(res, tier):
+    """Vm::to_call_result (how the outcome of Laythe code run on behalf of a native is handed back to that native) for every
+    execution result: a value is returned, a runtime error is handed on as the error, and an exit request is handed on as an exit
+    request with its code (the native boundary maps it to set_exit: C18.K2.exit_status) - never an internal error"""
+    from .c01 import END_KINDS
+    P = get_program('vm')
+    e = Engine(P, loop_bound=4, timeout_s=60, max_depth=30)
+    W = VmWorld(e, P)
+    W.havoc_objects(e)
+    f = P.lookup('vm::Vm::to_call_result')
+    er = P.enum_def('vm::ExecutionResult')
+    le = P.enum_def('laythe_core::LyError') or P.enum_def('LyError')
+    opt = P.enum_def('Option')
+    res.bounds = {'execution result': 'Ok(any value), Exit(any code), RuntimeError with an error set'}
+    res.assumptions = ['a RuntimeError result comes with the error set on the fiber (Vm::set_error is the only producer)',
+                       'CompileError cannot come out of running code (compilation precedes execution)']
+    e.model(r'^(fiber::)?Fiber::error$', lambda e_, a, c: EnumV('Option<Instance>', 1, {'Some': {0: Cell(Opaque('Instance', 'fiber_error'))}}, None, opt))
+
+    def path(e):
+        st = W.fresh_state(e)
+        kv = z3.BitVec('result_kind', 64)
+        names = [v[0] for v in er.variants]
+        allowed = [i for i, n in enumerate(names) if n != 'CompileError']
+        e.add_constraint(z3.Or(*[kv == i for i in allowed]))
+        k = e.concretize(kv, allowed)
+        vn = names[k]
+        if vn == 'Ok':
+            x = EnumV('vm::ExecutionResult', k, {vn: {0: Cell(e.fresh('laythe_core::value::Value', 'value'))}}, None, er)
+        elif vn == 'Exit':
+            x = EnumV('vm::ExecutionResult', k, {vn: {0: Cell(z3.BitVec('exit_code', 16))}}, None, er)
+        else:
+            x = EnumV('vm::ExecutionResult', k, None, None, er)
+        outcome, r = 'ok', None
+        try:
+            r = e.call(f, [Ref(st.vm_cell), x])
+        except PathEnd as pe:
+            if pe.kind not in END_KINDS:
+                raise
+            outcome = pe.kind
+        if vn == 'Exit':
+            good = outcome == 'ok' and isinstance(r, EnumV) and r.tag == 1
+            if good:
+                err = e.payload0(r, 'Err')
+                good = isinstance(err, EnumV) and err.variant_name() == 'Exit' and e.is_valid(err.field(e, 'Exit', 0, 'u16').get(e) == z3.BitVec('exit_code', 16))
+            e.check(good, 'an exit request raised inside a callback is handed to the native as an exit request with its code (not an internal error)', {'outcome': outcome})
+        elif vn == 'Ok':
+            e.check(outcome == 'ok' and isinstance(r, EnumV) and r.tag == 0, 'a value computed by a callback is returned to the native')
+        else:
+            good = outcome == 'ok' and isinstance(r, EnumV) and r.tag == 1 and e.payload0(r, 'Err').variant_name() == 'Err'
+            e.check(good, 'an error raised inside a callback is handed to the native as that error')
+        return {'result': vn, 'outcome': outcome}
+    results = e.explore(path)
+    for r in results:
+        if r.kind in ('oob', 'unreachable', 'ub', 'diverge', 'depth', 'panic'):
+            res.fail(f'C18.K2:to_call_result:{r.kind}', f'to_call_result: path ends in {r.kind}: {str(r.info)[:200]}', {'path': str(r.info)}, replay=F22_REPLAY)
+    summarize_paths(res, e, results, lambda r: r.info if isinstance(r.info, dict) else None, key_prefix='C18.K2:to_call_result:', unwind_ok=False)
+    for fd in res.findings:
+        if 'exit request' in fd.key:
+            fd.replay = F22_REPLAY
+
+
+@obligation('C18.K2.run_fun_signals', 'C18', programs=('vm',), also=('C16',))
+def k2_run_fun(res, tier):
+    """Vm::run_fun / run_method with the callee summarised by the signal resolve_call answers with and the result of running it: no
+    signal a callee can produce ends in an internal error; an exit request made by the callee itself (a native such as exit handed
+    in as the callback) comes back as an exit request carrying the code recorded by set_exit"""
+    from .c01 import END_KINDS
+    from .vmabs import AbsObj
+    P = get_program('vm')
+    sig = P.enum_def('vm::ExecutionSignal')
+    er = P.enum_def('vm::ExecutionResult')
+    opt = P.enum_def('Option')
+    res.bounds = {'signal from resolve_call': 'Ok, OkReturn, RuntimeError, Exit', 'arguments': '0..2'}
+    res.assumptions = ['resolve_call answers a callable with one of Ok / OkReturn / RuntimeError / Exit (ContextSwitch and friends come only from channel and launch instructions, never from a call)',
+                       'a RuntimeError comes with the error set on the fiber']
+    for fname in ('run_fun', 'run_method'):
+        e = Engine(P, loop_bound=5, timeout_s=60, max_depth=40)
+        W = VmWorld(e, P)
+        W.havoc_objects(e)
+        f = P.lookup('vm::Vm::' + fname)
+        e.model(r'^(fiber::)?Fiber::error$', lambda e_, a, c: EnumV('Option<Instance>', 1, {'Some': {0: Cell(Opaque('Instance', 'fiber_error'))}}, None, opt))
+        e.allow_havoc(r'^(fiber::)?Fiber::(ensure_stack|push|pop)$')
+
+        def m_resolve(e_, a, c):
+            kv = z3.BitVec('signal', 64)
+            names = [v[0] for v in sig.variants]
+            allowed = [i for i, n in enumerate(names) if n in ('Ok', 'OkReturn', 'RuntimeError', 'Exit')]
+            e_.add_constraint(z3.Or(*[kv == i for i in allowed]))
+            k = e_.concretize(kv, allowed)
+            e_.path_state['signal'] = names[k]
+            return EnumV('vm::ExecutionSignal', k, None, None, sig)
+        e.model(r'^(vm::)?Vm::resolve_call$', m_resolve)
+
+        def m_execute(e_, a, c):
+            kv = z3.BitVec('executed', 64)
+            names = [v[0] for v in er.variants]
+            allowed = [i for i, n in enumerate(names) if n != 'CompileError']
+            e_.add_constraint(z3.Or(*[kv == i for i in allowed]))
+            k = e_.concretize(kv, allowed)
+            vn = names[k]
+            pay = None
+            if vn == 'Ok':
+                pay = {vn: {0: Cell(e_.fresh('laythe_core::value::Value', 'value'))}}
+            elif vn == 'Exit':
+                pay = {vn: {0: Cell(z3.BitVec('inner_exit_code', 16))}}
+            return EnumV('vm::ExecutionResult', k, pay, None, er)
+        e.model(r'^(vm::)?Vm::execute$', m_execute)
+
+        def path(e, fname=fname):
+            st = W.fresh_state(e)
+            vm_sd = P.struct_def('vm::Vm')
+            code0 = st.vm.field(e, vm_sd.index_of('exit_code'), 'u16').get(e)
+            nv = z3.BitVec('n_args', 64)
+            e.add_constraint(z3.ULE(nv, 2))
+            n = e.concretize(nv, [0, 1, 2])
+            args = ConcSeq('Value', [Cell(e.fresh('laythe_core::value::Value', f'arg{j}')) for j in range(n)])
+            call_args = [Ref(st.vm_cell), e.fresh('laythe_core::value::Value', 'callable')]
+            if fname == 'run_method':
+                call_args.append(e.fresh('laythe_core::value::Value', 'method'))
+            call_args.append(SliceRef(args, bv(0, 64), bv(n, 64)))
+            outcome, r = 'ok', None
+            try:
+                r = e.call(f, call_args)
+            except PathEnd as pe:
+                if pe.kind not in END_KINDS:
+                    raise
+                outcome = pe.kind
+            s = e.path_state.get('signal')
+            e.check(outcome != 'internal_error', f'{fname}: no signal a callee can answer with ends in an internal error', {'signal': s})
+            if s == 'Exit' and outcome == 'ok':
+                good = isinstance(r, EnumV) and r.tag == 1 and e.payload0(r, 'Err').variant_name() == 'Exit'
+                if good:
+                    good = e.is_valid(e.payload0(r, 'Err').field(e, 'Exit', 0, 'u16').get(e) == code0)
+                e.check(good, f'{fname}: an exit requested by the callee itself comes back as an exit request with the recorded code')
+            return {'fn': fname, 'signal': s, 'outcome': outcome}
+        results = e.explore(path)
+        for r in results:
+            if r.kind in ('oob', 'unreachable', 'ub', 'diverge', 'depth', 'panic'):
+                res.fail(f'C18.K2:{fname}:{r.kind}', f'{fname}: path ends in {r.kind}: {str(r.info)[:200]}', {'path': str(r.info)})
+        summarize_paths(res, e, results, lambda r: r.info if isinstance(r.info, dict) else None, key_prefix=f'C18.K2:{fname}:', unwind_ok=False)
